@@ -29,7 +29,8 @@ inductive Leaf where
   | trueSet                  -- `rel.TrueSet`: `true`, `{()}`, `1 = 1`
   | emptySet                 -- `rel.EmptySet`: `false`, `{}`, `[]`, `''`
   | genericSet (s : GShape)  -- `rel.GenericSet`: `{1, 2}`, `{true}` …  (sets are leaves, not containers)
-  | other                    -- every other value: number, string, bytes, relation, union set, function …
+  | other                    -- every other data value: number, string, bytes, relation, union set …
+  | func                     -- a function value (`rel.Closure` …): a leaf like any other non-boolean
   | fails                    -- the sub-expression does not evaluate (the whole file then fails)
   deriving DecidableEq, Repr, Inhabited
 
@@ -134,6 +135,16 @@ def subtree : Tree → Path → Option Tree
     | some t => subtree t p
     | none => none
   | _, _ :: _ => none
+
+/-- navigation that does not assume distinct keys: a dictionary may hold several values under one key
+(`{k: v} | {k: v'}`); every (key, value) pair is a member reached through that key.  (For tuples the
+attribute names, for arrays the indices are distinct by construction of the values.) -/
+inductive Reaches : Tree → Path → Tree → Prop where
+  | here {t} : Reaches t [] t
+  | attr {as n c p t} : (n, c) ∈ as → Reaches c p t → Reaches (.tup as) (.attr n :: p) t
+  | idx {off items i c p t} : lookupItem i items off = some c → Reaches c p t →
+      Reaches (.arr off items) (.idx i :: p) t
+  | key {es k c p t} : (k, c) ∈ es → Reaches c p t → Reaches (.dict es) (.key k :: p) t
 
 def distinct {α} [DecidableEq α] : List α → Bool
   | [] => true
